@@ -16,6 +16,7 @@ RULE = ('(a) PCM scenario driver: the real PortfolioConstructionModel on a real 
         'duplicates over universe + held + alpha keys; allocation row covers exactly that set with the sizer\'s input '
         'weights (0 where alpha is silent); after the fills holdings == non-zero targets; unweighted held assets are '
         'fully sold. Non-trivial: a rebalance with a held asset outside the alpha keys and a new asset; distinct = case.')
+RULE += ' Half of the driver cases rebalance through a real QuantTradingSystem (portfolio construction + ExecutionHandler submitting the orders); a rebalance request that runs no portfolio construction, or raises, is a violation. 30% of the cases start with several positions of exactly the same size.'
 ASSUMPTIONS = ['the target is the sizer\'s own output (its correctness is C10/C11)']
 
 
